@@ -111,7 +111,7 @@ def check(model: Model, run: Run) -> None:
         'C08.R3',
         'every registered attribute class has an RFC 7606 disposition: TREAT_AS_WITHDRAW or DISCARD is set, or the '
         'class is a session-reset class whose decoder explicitly raises only Notify(3, x)',
-        floor=20,
+        floor=13,
     )
     attrs = registry.attributes(model, folder)
     exc = common.ExcFlow(model)
@@ -182,7 +182,7 @@ def check(model: Model, run: Run) -> None:
         'the RFC 7606 class table: attributes whose malformation must be treat-as-withdraw (ORIGIN, AS_PATH, NEXT_HOP, '
         'MED, LOCAL_PREF, ORIGINATOR_ID, CLUSTER_LIST, communities) carry TREAT_AS_WITHDRAW; ATOMIC_AGGREGATE and '
         'AGGREGATOR carry DISCARD; MP_REACH/MP_UNREACH carry neither and NO_DUPLICATE',
-        floor=10,
+        floor=7,
     )
     _r7_table(model, run, attrs)
 
